@@ -15,6 +15,9 @@ RULE = ("cases drawn from one PRNG (VERIF_SEED): one async node of a random sour
         "source) with or without an initial value; 4: leptos_server ArcResource::new / Resource::new; 5: leptos_server "
         "ArcOnceResource::new / OnceResource::new), as ArcAsyncDerived, arena AsyncDerived, new_unsync with a tracked refetch "
         "counter (what LocalResource::new builds) or the real leptos_server ArcLocalResource::new / LocalResource::new (shape 0), "
+        "shape 4 / 5 through every Resource / OnceResource constructor (new, new_blocking, new_str, new_str_blocking, "
+        "new_with_options, From conversions) and, from wrap 2 on, through the wrapper's own Track / ReadUntracked / "
+        "IntoFuture / by_ref / map / refetch instead of its Deref target, "
         "with no dependent / an Effect "
         "reading it / an Effect reading it and a memo; followed by a history of signal writes (values 0..5 so that memo values "
         "sometimes stay and sometimes change), refetches, manual set(Some v), notify (only after a manual set), completion of "
@@ -52,6 +55,9 @@ TRUSTED = [
     "tick are not explored); serialization / hydration is out of scope",
 ]
 ASSUMPTIONS = [
+    "the _with_initial constructors (value present at once, the first load still runs) are not in the Coq model: 12 % of the "
+    "shape 0 / 1 cases use them and are judged by the Python oracle alone (compared, not proved)",
+    "awaits through by_ref() are generated outside the Suspense boundary only (that future does not register a boundary)",
     "transitions: one task awaits one outermost AsyncTransition::run; nested runs are awaited inside the enclosing action "
     "(properly nested); two transitions running concurrently in different tasks share the one global slot and are not "
     "generated; reloads started by a task poll while a transition is installed are not generated",
